@@ -211,6 +211,11 @@ def _concrete_inputs(vals):
 
 
 def _random_point(ob, rng):
+    sampler = getattr(ob, "tv_sampler", None)
+    if sampler is not None:
+        # obligation-specific sampler for translator validation (e.g. points of a probability simplex, which uniform sampling of the
+        # coordinates practically never hits); values are rounded to multiples of 2^-20 so that the exact evaluation stays cheap
+        return {k: (int(v) if isinstance(v, (int, np.integer)) else Fraction(round(float(v) * 1048576), 1048576)) for k, v in sampler(rng).items()}
     vals = {}
     for name, kind, lo, hi in ob.inputs:
         lo_ = -10 if lo is None else lo
